@@ -1228,6 +1228,32 @@ class Facts:
                     continue
                 if norm_ty(im["self"]) == dst and norm_ty(src) in norm_ty(im.get("trait_full", "")):
                     out.add(f.key)
+        if re.search(r"ops::FromResidual::from_residual$", path) and len(targs) >= 2:
+            # `expr?` converts the error with From::from inside std's from_residual: the crate's conversion runs here
+            def err_ty(ty):
+                m_ = re.match(r"^std::result::Result<(.*)>$", ty.strip())
+                if not m_:
+                    return None
+                depth, parts, cur = 0, [], ""
+                for ch in m_.group(1):
+                    if ch in "<([":
+                        depth += 1
+                    elif ch in ">)]":
+                        depth -= 1
+                    if ch == "," and depth == 0:
+                        parts.append(cur)
+                        cur = ""
+                    else:
+                        cur += ch
+                parts.append(cur)
+                return parts[-1].strip() if len(parts) == 2 else None
+            dst, src = err_ty(targs[0]), err_ty(targs[1])
+            if dst and src and norm_ty(dst) != norm_ty(src):
+                for f in self.fns.values():
+                    im = f.j.get("impl")
+                    if im and im.get("trait") == "std::convert::From" and norm_ty(im["self"]) == norm_ty(dst) \
+                            and norm_ty(im.get("trait_full", "")).endswith(norm_ty("From<%s>>" % src)):
+                        out.add(f.key)
         if re.search(r"string::ToString::to_string$", path) and targs:
             src = norm_ty(targs[0])
             for f in self.fns.values():
